@@ -144,11 +144,49 @@ func (g G) DualConfig() []DualItem {
 			}
 			usedOut[nm] = true
 			it := DualItem{Kind: "block", Name: "output", Labels: []string{nm}}
-			for _, an := range []string{"value", "str", "of", "ofres"} {
-				if !g.Chance(55) {
+			for _, an := range []string{"value", "str", "of", "ofres", "one", "lst", "mp", "ob", "lit"} {
+				if !g.Chance(45) {
 					continue
 				}
+				varRef := func() DualValue { return DualValue{Kind: "ref", Ref: "var." + Pick(g, refNames)} }
+				// Where a reference and a string literal are both admitted, a JSON string that parses
+				// as a traversal ("s") is ambiguous - JSON cannot tell `x = s` from `x = "s"` - so
+				// the literals written there are strings that are no traversal.
+				strOrRef := func(ref DualValue) DualValue { return Pick(g, []DualValue{g.dualLitNoTraversal(), ref, ref}) }
 				switch an {
+				case "one":
+					// (never the legacy bare form: a bare string is also a valid literal here)
+					it.Body = append(it.Body, DualItem{Kind: "attr", Name: an, Value: ptrDV(strOrRef(varRef()))})
+				case "lst":
+					v := DualValue{Kind: "list"}
+					for k, n := 0, g.Int(0, 3); k < n; k++ {
+						v.Elems = append(v.Elems, strOrRef(DualValue{Kind: "ref", Ref: g.refAddr(true)}))
+					}
+					it.Body = append(it.Body, DualItem{Kind: "attr", Name: an, Value: &v})
+				case "mp":
+					v := DualValue{Kind: "obj"}
+					for _, k := range Subset(g, []string{"k", "z", "n"}, 60) {
+						v.Keys = append(v.Keys, k)
+						v.Elems = append(v.Elems, DualValue{Kind: Pick(g, []string{"ref", "ref", "bare"}), Ref: "var." + Pick(g, refNames)})
+					}
+					it.Body = append(it.Body, DualItem{Kind: "attr", Name: an, Value: &v})
+				case "ob":
+					v := DualValue{Kind: "obj"}
+					for _, k := range Subset(g, []string{"k", "z", "n"}, 60) {
+						v.Keys = append(v.Keys, k)
+						switch k {
+						case "k":
+							v.Elems = append(v.Elems, DualValue{Kind: Pick(g, []string{"ref", "ref", "bare"}), Ref: "var." + Pick(g, refNames)})
+						case "z":
+							nv := m.ValOf(cty.NumberIntVal(int64(g.Int(1, 9))))
+							v.Elems = append(v.Elems, DualValue{Kind: "lit", Lit: &nv})
+						default:
+							v.Elems = append(v.Elems, strOrRef(DualValue{Kind: "ref", Ref: Pick(g, refTypes) + "." + Pick(g, refNames)}))
+						}
+					}
+					it.Body = append(it.Body, DualItem{Kind: "attr", Name: an, Value: &v})
+				case "lit":
+					it.Body = append(it.Body, DualItem{Kind: "attr", Name: an, Value: ptrDV(g.dualLitString())})
 				case "of":
 					it.Body = append(it.Body, DualItem{Kind: "attr", Name: an, Value: &DualValue{Kind: Pick(g, []string{"ref", "bare"}), Ref: "var." + Pick(g, refNames)}})
 				case "ofres":
@@ -170,10 +208,32 @@ func (g G) dualLitString() DualValue {
 	return DualValue{Kind: "lit", Lit: &v}
 }
 
+func (g G) dualLitNoTraversal() DualValue {
+	v := m.ValOf(cty.StringVal(Pick(g, []string{"é x", "two words", "a/b", ""})))
+	return DualValue{Kind: "lit", Lit: &v}
+}
+
 func ptrDV(v DualValue) *DualValue { return &v }
 
 // RefSchemaSimple exposes the schema the dual configurations are written for.
-func (g G) RefSchemaSimple() m.BodyM { return g.refSchema([]string{"p0"}, 0, true) }
+func (g G) RefSchemaSimple() m.BodyM {
+	root := g.refSchema([]string{"p0"}, 0, true)
+	// constraint kinds beyond any-expression, each expressible in both syntaxes
+	out := root.Blocks["output"]
+	refVar := m.ConsM{K: "ref", Scope: "variable"}
+	litStr := m.ConsM{K: "littype", Ty: m.TyOf(cty.String)}
+	out.Body.Attrs["one"] = m.AttrM{Flag: "optional", Cons: m.ConsM{K: "oneof", Elems: []m.ConsM{refVar, litStr}}}
+	out.Body.Attrs["lst"] = m.AttrM{Flag: "optional", Cons: m.ConsM{K: "list", Elem: &m.ConsM{K: "oneof", Elems: []m.ConsM{{K: "ref", Ty: m.TyOf(cty.String)}, litStr}}}}
+	out.Body.Attrs["mp"] = m.AttrM{Flag: "optional", Cons: m.ConsM{K: "map", Elem: &refVar}}
+	out.Body.Attrs["ob"] = m.AttrM{Flag: "optional", Cons: m.ConsM{K: "object", Attrs: map[string]m.AttrM{
+		"k": {Flag: "optional", Cons: refVar},
+		"z": {Flag: "optional", Cons: m.ConsM{K: "littype", Ty: m.TyOf(cty.Number)}},
+		"n": {Flag: "optional", Cons: m.ConsM{K: "oneof", Elems: []m.ConsM{{K: "ref", Scope: "resource"}, litStr}}},
+	}}}
+	out.Body.Attrs["lit"] = m.AttrM{Flag: "optional", Cons: litStr}
+	root.Blocks["output"] = out
+	return root
+}
 
 // ---------------------------------------------------------------- rendering
 
